@@ -24,23 +24,23 @@ PENDING = "check planned (DESIGN 0) but not built yet in this tree; moves to che
 CHECKS = {
  "C16": dict(engine="thrsim", design_ref="DESIGN.md 3",
    technique="deterministic simulation: real threads under a seeded baton scheduler (sys.settrace line pre-emption), seeded search over schedules, per-call oracle from the tree's own sequential runs",
-   text="Seeded exploration of thread interleavings at athlib source-line granularity (<=3 forced pre-emptions, 2-3 threads, first-call / warmed-up / cache-at-limit base states) over the public scoring, age-grading and validation calls; every call's outcome must be one it has in some call-atomic sequential order of the same tree. The recorded failing schedules of the repaired defects are re-executed first (regression corpus). Uncommitted changes in athlib/ steer about half of the scenarios to the function families that execute the changed files. Sampling, not proof: quick ~3.4e4 schedules over 1400 scenarios, thorough ~7.7e5 over 24000; evidence reports distinct interleavings reached, where switches landed and which executed lines never saw one.",
+   text="Seeded exploration of thread interleavings at athlib source-line granularity (<=3 forced pre-emptions, 2-3 threads, first-call / warmed-up / cache-at-limit base states) over the public scoring, age-grading and validation calls; every call's outcome must be one it has in some call-atomic sequential order of the same tree. The recorded failing schedules of the repaired defects are re-executed first (regression corpus). Uncommitted changes in athlib/ steer about half of the scenarios to the function families that execute the changed files. Sampling, not proof: quick ~4.3e4 schedules over 1800 scenarios, thorough ~7.7e5 over 24000; evidence reports distinct interleavings reached, where switches landed and which executed lines never saw one.",
    note="Trusts CPython's line tracing and fork() as a fresh process; pre-emption only at athlib lines (not inside jsonschema/stdlib or within a line); locks, conditions, events and semaphores reachable from athlib are replaced by cooperative ones (a wait nobody can end is reported as deadlock); the oracle is the same tree run sequentially, so purely sequential bugs are invisible here."),
  "C02": dict(engine="hjsim", design_ref="DESIGN.md 4.3-4.4",
    technique="deterministic simulation: seeded multi-actor histories (officials, athletes, heckler issuing rule-violating requests) against an executable reference model; refusal atomicity by before/after snapshots",
-   text="Seeded exploration of call histories on one competition object (1-4 athletes, <=4+3 heights quick, <=8+6 thorough, <=140/250 calls; scripted competitions with a heckler, and free random walks over the whole alphabet). After every call: accepted <=> the rule-text model says legal; a refusal is a RuleViolation and leaves state, heights, cards, bests, places, log and trials bit-identical; an acceptance is logged exactly once and shows on the card; the state only moves forward. Sampling, not proof (quick 3.6e5 histories, thorough 6e6).",
+   text="Seeded exploration of call histories on one competition object (1-4 athletes, <=4+3 heights quick, <=8+6 thorough, <=140/250 calls; scripted competitions with a heckler, and free random walks over the whole alphabet). After every call: accepted <=> the rule-text model says legal; a refusal is a RuleViolation and leaves state, heights, cards, bests, places, log and trials bit-identical; an acceptance is logged exactly once and shows on the card; the state only moves forward. Sampling, not proof (quick 4.8e5 histories, thorough 6e6).",
    note="Trusts the reference model (simkit/hjmodel.py, ~200 lines, written from the rule text; cases the text leaves open are tolerated either way) and reads the competition phase from the implementation, validating it with necessary conditions only."),
  "C03": dict(engine="hjsim", design_ref="DESIGN.md 4.6",
    technique="deterministic simulation: seeded complete competitions with scripted ties and jump-offs; places and bests checked against countback recomputed from the result cards alone",
-   text="Seeded exploration of complete competitions (2-4 athletes, shared scripts to provoke countback ties, well-formed jump-offs with the bar raised, repeated or lowered, retirements). Bests are checked after every call; whenever the state is finished/won/drawn the places must equal the competition ranking computed from the cards (three countback levels), jump-off participants must stay ahead of non-participants with the survivor first, a tie for first may not stand in 'finished'; jump-off entry and later re-instatements are cross-checked with the countback tie set / the round bookkeeping. Two bounded-liveness clauses: once everybody is out, and once a well-formed jump-off round has left a single survivor over the bar, the competition must be decided. Sampling, not proof (quick 4e5 competitions, thorough 6e6).",
+   text="Seeded exploration of complete competitions (2-4 athletes, shared scripts to provoke countback ties, well-formed jump-offs with the bar raised, repeated or lowered, retirements). Bests are checked after every call; whenever the state is finished/won/drawn the places must equal the competition ranking computed from the cards (three countback levels), jump-off participants must stay ahead of non-participants with the survivor first, a tie for first may not stand in 'finished'; jump-off entry and later re-instatements are cross-checked with the countback tie set / the round bookkeeping. Two bounded-liveness clauses: once everybody is out, and once a well-formed jump-off round has left a single survivor over the bar, the competition must be decided. Sampling, not proof (quick 6e5 competitions, thorough 6e6).",
    note="Countback oracle and jump-off bookkeeping are the model's; jump-offs with passes or skipped attempts and competitions where nobody cleared anything are followed but not judged (text silent)."),
  "C08": dict(engine="hjsim", design_ref="DESIGN.md 4.5",
    technique="deterministic simulation with crash/recover fault injection: rebuild from the action log (then lock-step shadow) or from the exported card at seeded points, and seeded re-scheduling of the jumping order",
-   text="Seeded histories (as C02, heckled) with injected recoveries: from_actions() replicas must equal the original snapshot and stay equal call for call for the rest of the run; to_matrix()/from_matrix() round trips must reproduce state, heights, bests, places and cards modulo pass marks; the accepted history re-executed under 4 fixed adversarial and several seeded random per-height interleavings must be accepted call for call and end in the same cards, state, bests and places. Sampling, not proof (quick 1.2e5 histories with ~2e6 recoveries/re-schedules, thorough 2e6 histories).",
+   text="Seeded histories (as C02, heckled) with injected recoveries: from_actions() replicas must equal the original snapshot and stay equal call for call for the rest of the run; to_matrix()/from_matrix() round trips must reproduce state, heights, bests, places and cards modulo pass marks; the accepted history re-executed under 4 fixed adversarial and several seeded random per-height interleavings must be accepted call for call and end in the same cards, state, bests and places. Sampling, not proof (quick 1.6e5 histories with ~3e6 recoveries/re-schedules, thorough 2e6 histories).",
    note="Equality is over public observables only (state, heights, bar, log, trials, cards, bests, places); private flags are compared indirectly through the lock-step continuation."),
  "C19": dict(engine="schemasim", design_ref="DESIGN.md 5",
    technique="deterministic simulation: seeded call histories in processes forked from a pristine importer, per-call oracle = the same call made first in a fresh process; file-open and socket seams (network permanently partitioned)",
-   text="Seeded exploration of call histories over schema_valid / valid_against_schema (13 schemas x 8 validator classes incl. three user-defined ones x expect_failure, 25 documents x 13 schemas x expect_failure; relative, absolute, bare and back-slashed file spellings; ~1 900 distinct calls): short histories biased to cache-key collisions and long ones overflowing the 20-entry caches (random, fill-then-probe, thrash). Every call's outcome must equal its fresh-process outcome; the history-free clauses (bundled valid samples validate, invalid ones do not / raise, schemas valid under Draft4, no socket touched, only repository .json files opened) are checked on the fresh table. Sampling, not proof (quick 8e3 histories / 1.7e5 calls, thorough 2e5 histories plus a fresh-interpreter cross-check of the table and diagnostic I/O-fault runs).",
+   text="Seeded exploration of call histories over schema_valid / valid_against_schema (13 schemas x 8 validator classes incl. three user-defined ones x expect_failure, 25 documents x 13 schemas x expect_failure; relative, absolute, bare and back-slashed file spellings; ~1 900 distinct calls): short histories biased to cache-key collisions and long ones overflowing the 20-entry caches (random, fill-then-probe, thrash). Every call's outcome must equal its fresh-process outcome; the history-free clauses (bundled valid samples validate, invalid ones do not / raise, schemas valid under Draft4, no socket touched, only repository .json files opened) are checked on the fresh table. Sampling, not proof (quick 1e4 histories / 1.7e5 calls, thorough 2e5 histories plus a fresh-interpreter cross-check of the table and diagnostic I/O-fault runs).",
    note="fork() of a never-called importer is taken as a fresh process (cross-checked in the thorough tier); exception outcomes are compared by type and message hash; injected read errors are diagnostic only because the property quantifies over histories, not I/O faults."),
 }
 
